@@ -22,6 +22,7 @@ Fixpoint erase (a : ann) : ann :=
   | AUnion sp args => AUnion sp (map erase args)
   | AGeneric sp o args => AGeneric sp o (map erase args)
   | ATupleVar sp e => ATupleVar sp (erase e)
+  | ANewType s => ANewType (erase s)
   | x => x
   end.
 
@@ -32,6 +33,7 @@ Fixpoint inert (a : ann) : bool :=
   | AUnion _ args => forallb inert args
   | AGeneric _ _ args => forallb inert args
   | ATupleVar _ e => inert e
+  | ANewType s => inert s
   | _ => true
   end.
 
